@@ -4,6 +4,7 @@ import (
 	"bytes"
 	"fmt"
 	"io"
+	"os"
 	"runtime/debug"
 	"strings"
 	"sync"
@@ -11,7 +12,9 @@ import (
 	"time"
 
 	"github.com/ethereum/go-ethereum/rlp"
+	"github.com/inconshreveable/log15"
 
+	"github.com/zenon-network/go-zenon/common"
 	"github.com/zenon-network/go-zenon/common/types"
 	"github.com/zenon-network/go-zenon/p2p"
 	"github.com/zenon-network/go-zenon/p2p/discover"
@@ -141,9 +144,9 @@ func nodeID(tag byte, seq uint64) discover.NodeID {
 	return id
 }
 
-func (e *env) connect(pm *protocol.ProtocolManager, name string, id discover.NodeID) *hpeer {
+func (e *env) connect(pm *protocol.ProtocolManager, name string, id discover.NodeID, resp *responder) *hpeer {
 	app, net := p2p.MsgPipe()
-	p := &hpeer{name: name, net: net, notify: make(chan struct{}, 1), done: make(chan struct{}), out: make(chan wreq), quit: make(chan struct{}), readerDone: make(chan struct{})}
+	p := &hpeer{name: name, resp: resp, net: net, notify: make(chan struct{}, 1), done: make(chan struct{}), out: make(chan wreq), quit: make(chan struct{}), readerDone: make(chan struct{})}
 	raw := e.raw
 	go func() {
 		defer close(p.done)
@@ -313,13 +316,23 @@ func (p *hpeer) close() {
 // responder: scripted answers to the node's own requests (what a peer that the node synchronises with controls)
 
 type responder struct {
-	e    *env
-	mu   sync.Mutex
-	spec respSpec
-	used map[uint64]int
+	e      *env
+	mu     sync.Mutex
+	spec   respSpec
+	used   map[uint64]int
+	honest bool // the witness: an honest peer on the same chain; it has none of the forged blocks it may be asked for
 }
 
 func (r *responder) onRequest(p *hpeer, code uint64) {
+	if r.honest {
+		switch code {
+		case protocol.GetBlocksMsg:
+			p.sendAsync(protocol.BlocksMsg, []byte{0xC0})
+		default:
+			p.sendAsync(protocol.BlockHashesMsg, []byte{0xC0})
+		}
+		return
+	}
 	r.mu.Lock()
 	var list []string
 	switch code {
@@ -385,6 +398,14 @@ func (sr *sessionRun) where(li int) string {
 
 func (sr *sessionRun) run() {
 	e, s, res := sr.e, sr.s, sr.res
+	if dbg := os.Getenv("VERIF_C15_DEBUG"); dbg != "" { // development aid: the node's own protocol logs
+		if f, err := os.OpenFile(dbg+".log", os.O_APPEND|os.O_CREATE|os.O_WRONLY, 0o644); err == nil {
+			h := log15.StreamHandler(f, log15.LogfmtFormat())
+			common.DownloaderLogger.SetHandler(h)
+			common.FetcherLogger.SetHandler(h)
+			common.ProtocolLogger.SetHandler(h)
+		}
+	}
 	sessionSeq++
 	sr.ob = &obsBridge{inner: e.n.Bridge, raw: e.raw, memo: &e.memo}
 	sr.pm = protocol.NewProtocolManager(0, e.chainID, sr.ob)
@@ -396,16 +417,24 @@ func (sr *sessionRun) run() {
 		letters[i] = lookupLetter(name)
 	}
 
-	// witness peer: an honest peer connected before the session under test
-	sr.W = e.connect(sr.pm, "witness", nodeID('W', sessionSeq))
-	if st := sr.handshake(sr.W); st != "ok" {
-		res.Notes = append(res.Notes, "witness handshake failed: "+st)
-		res.count("harness_witness_handshake_failed", 1)
+	// witness peer: an honest peer connected before the session under test. In scripted sessions it connects after the
+	// dialogue instead: the downloader hands block requests to any idle peer, and an honest peer's answer "I do not have
+	// these" is discarded by the handler (empty BlocksMsg), leaving the request to a 9 s timer.
+	connectWitness := func() {
+		sr.W = e.connect(sr.pm, "witness", nodeID('W', sessionSeq), &responder{e: e, honest: true})
+		if st := sr.handshake(sr.W); st != "ok" {
+			res.Notes = append(res.Notes, "witness handshake failed: "+st)
+			res.count("harness_witness_handshake_failed", 1)
+		}
 	}
-	sr.P = e.connect(sr.pm, "peer", nodeID('P', sessionSeq))
+	if s.Resp == nil {
+		connectWitness()
+	}
+	var presp *responder
 	if s.Resp != nil {
-		sr.P.resp = &responder{e: e, spec: *s.Resp, used: map[uint64]int{}}
+		presp = &responder{e: e, spec: *s.Resp, used: map[uint64]int{}}
 	}
+	sr.P = e.connect(sr.pm, "peer", nodeID('P', sessionSeq), presp)
 	alive := true
 	handshaken := false
 	if !s.Pre {
@@ -431,15 +460,33 @@ func (sr *sessionRun) run() {
 		}
 	}
 
-	if s.Resp != nil && s.Resp.WaitRequests > 0 && alive && !sr.postMortem && res.Blocked == "" {
+	if s.Resp != nil && alive && !sr.postMortem && res.Blocked == "" {
+		// The dialogue is driven by the node: its downloader polls its queue on a 100 ms ticker and its fetcher asks for an
+		// announced block after 400 ms. Keep observing while the node keeps sending requests; how long to watch is the only
+		// thing the clock decides here, no verdict depends on it.
+		reqs := func() int { return int(atomic.LoadInt32(&sr.P.requests)) }
 		deadline := time.Now().Add(3 * time.Second)
-		for int(atomic.LoadInt32(&sr.P.requests)) < s.Resp.WaitRequests && time.Now().Before(deadline) && !sr.P.ended() {
+		for reqs() < s.Resp.WaitRequests && time.Now().Before(deadline) && !sr.P.ended() {
 			time.Sleep(5 * time.Millisecond)
 		}
-		if int(atomic.LoadInt32(&sr.P.requests)) < s.Resp.WaitRequests {
-			res.count("a_responder_no_request", 1)
-		} else {
-			res.count("a_responder_requests_served", 1)
+		if s.Resp.WaitRequests > 0 {
+			if reqs() < s.Resp.WaitRequests {
+				res.count("a_responder_no_request", 1)
+			} else {
+				res.count("a_responder_requests_served", 1)
+			}
+		}
+		for time.Now().Before(deadline) && !sr.P.ended() {
+			quiesce(time.Second)
+			n := reqs()
+			time.Sleep(160 * time.Millisecond)
+			quiesce(time.Second)
+			if reqs() == n {
+				break
+			}
+		}
+		if !sr.postMortem && sr.ob.panicCount() == 0 {
+			connectWitness()
 		}
 		sr.settle(len(letters)-1, letters[len(letters)-1], true)
 	}
@@ -447,9 +494,19 @@ func (sr *sessionRun) run() {
 		res.count("a_node_requests_seen", int64(atomic.LoadInt32(&sr.P.requests)))
 	}
 
+	if os.Getenv("VERIF_C15_DEBUG") != "" {
+		for _, m := range sr.P.snapshot() {
+			res.Notes = append(res.Notes, fmt.Sprintf("P<-node %s size=%d count=%d first=%x", codeName(m.Code), m.Size, m.Count, m.First[:4]))
+		}
+		if sr.P.ended() {
+			res.Notes = append(res.Notes, fmt.Sprintf("P ended: err=%v panic=%q", sr.P.runErr, sr.P.runPanic))
+		}
+	}
 	// teardown
 	sr.P.close()
-	sr.W.close()
+	if sr.W != nil {
+		sr.W.close()
+	}
 	stopped := make(chan struct{})
 	go func() { sr.pm.Stop(); close(stopped) }()
 	select {
@@ -717,7 +774,7 @@ func (sr *sessionRun) settle(li int, l *letter, final bool) string {
 	sr.checkCaps(li, l, P, &sr.checkedP)
 
 	// the witness must still be served
-	if res.Blocked == "" {
+	if res.Blocked == "" && W != nil {
 		before := len(replies(W.snapshot()))
 		if W.ended() {
 			res.violate(fmt.Sprintf("C15:%s:%s:other-peer-dropped", l.CodeName, l.Class), fmt.Sprintf("after %s the honest witness peer was disconnected (Run returned %v, panic %q)", sr.where(li), W.runErr, W.runPanic))
@@ -771,7 +828,7 @@ func (sr *sessionRun) collectPanics(li int, l *letter) string {
 			key = fmt.Sprintf("C15:%s:%s@%s", code, panicKind(p.Value), p.Site)
 			why = "on the peer's protocol goroutine, which p2p.Peer.startProtocols starts without a recover"
 		default:
-			key = fmt.Sprintf("C15:async-%s:%s@%s", p.Origin, panicKind(p.Value), p.Site)
+			key = fmt.Sprintf("C15:async:%s@%s:via-%s", panicKind(p.Value), p.Site, p.Method)
 			why = fmt.Sprintf("on a %s goroutine that has no recover", p.Origin)
 		}
 		sr.res.violate(key, fmt.Sprintf("%s: panic in %s (called through ChainBridge.%s) %s, so the node process terminates: %s\n%s", sr.where(li), p.Site, p.Method, why, p.Value, p.Stack))
@@ -792,8 +849,8 @@ func (sr *sessionRun) checkCaps(li int, l *letter, p *hpeer, checked *int) {
 		case protocol.BlockHashesMsg:
 			if m.Count > 512 {
 				cls := l.Class
-				if l.AmountOf != nil {
-					cls = amountClass(l.AmountOf(sr.e))
+				if l.CapClass != nil {
+					cls = l.CapClass(sr.e)
 				}
 				sr.res.violate(fmt.Sprintf("C15:%s:%s:cap-bypassed", l.CodeName, cls), fmt.Sprintf("%s: the node answered with %d hashes in one BlockHashesMsg (limit MaxHashFetch = 512)", sr.where(li), m.Count))
 			}
